@@ -9,6 +9,7 @@ The monitors are evaluated on the raw observations only (Spec side).
 import KafkaVerif.Base.Proto
 import KafkaVerif.Model.Commit
 import KafkaVerif.Model.GroupStart
+import KafkaVerif.Model.Group
 
 namespace KV.OracleC03
 open KV KV.Commit
@@ -215,6 +216,111 @@ def opTrace (mode evs : String) : String :=
     s!"model={m} holds={if ms.isEmpty then 1 else 0}"
   | none => s!"bad-op {(toks.find? (fun t => (parseTEv t).isNone)).getD "?"}"
 
+/-! ### multi-member group histories (one partition per line) -/
+
+inductive GTok
+  | produce
+  | assign (m start : Nat)
+  | sub (m start : Nat)
+  | deliver (m off : Nat)
+  | commit (m o : Nat) (ack : Bool)
+
+def parseGTok (tok : String) : Option GTok :=
+  match tok.splitOn ":" with
+  | ["produce"] => some .produce
+  | ["assign", m, st] => do some (.assign (← m.toNat?) (← st.toNat?))
+  | ["sub", m, st] => do some (.sub (← m.toNat?) (← st.toNat?))
+  | ["deliver", m, o] => do some (.deliver (← m.toNat?) (← o.toNat?))
+  | ["commit", m, o, a] => do some (.commit (← m.toNat?) (← o.toNat?) (← parseB a))
+  | _ => none
+
+/-- index of the latest epoch of member `m` -/
+def lastReader (rs : List GroupHist.Reader) (m : Nat) : Option (Nat × GroupHist.Reader) :=
+  (rs.zipIdx.filter (fun x => x.1.m == m)).getLast?.map (fun x => (x.2, x.1))
+
+/-- acceptance by `GroupHist.gstep false`; the observed start positions and delivered offsets must be the model's -/
+def gAccept : GroupHist.G → List GTok → Nat → Option (Nat × String)
+  | _, [], _ => none
+  | s, t :: ts, i =>
+    match t with
+    | .produce => match GroupHist.gstep false s .produce with
+      | some s' => gAccept s' ts (i + 1) | none => some (i, "produce")
+    | .assign m st => match GroupHist.gstep false s (.assign m) with
+      | some s' =>
+        (match s'.readers.getLast? with
+         | some rd => if rd.start == st then gAccept s' ts (i + 1) else some (i, s!"assign-start model={rd.start}")
+         | none => some (i, "assign"))
+      | none => some (i, "assign")
+    | .sub _ _ => gAccept s ts (i + 1)
+    | .deliver m off =>
+      match lastReader s.readers m with
+      | some (idx, rd) =>
+        if rd.pos == off then
+          match GroupHist.gstep false s (.deliver idx) with
+          | some s' => gAccept s' ts (i + 1)
+          | none => some (i, "deliver-beyond-log")
+        else some (i, s!"deliver-position model={rd.pos}")
+      | none => some (i, "deliver-without-assignment")
+    | .commit m o ack =>
+      match GroupHist.gstep false s (.commit m o ack) with
+      | some s' => gAccept s' ts (i + 1)
+      | none => some (i, "commit-beyond-delivered-to-member")
+
+def gscan (f : List GTok → GTok → Option String) : List GTok → List GTok → Nat → Option String
+  | _, [], _ => none
+  | past, e :: es, i =>
+    match f past e with
+    | some msg => some s!"{msg}@{i}"
+    | none => gscan f (e :: past) es (i + 1)
+
+/-- every record below an acknowledged commit was delivered to some member before -/
+def monCovered (es : List GTok) : Option String :=
+  gscan (fun past e =>
+    match e with
+    | .commit _ o true =>
+      match (List.range o).find? (fun r => !(past.any fun p => match p with | .deliver _ r' => r' == r | _ => false)) with
+      | some r => some s!"covered-undelivered:{r}<{o}"
+      | none => none
+    | _ => none) [] es 0
+
+/-- each assignment starts at the group's committed offset, or at the log start when there is none -/
+def monResume (es : List GTok) : Option String :=
+  gscan (fun past e =>
+    match e with
+    | .assign m st =>
+      let c := match past.find? (fun p => match p with | .commit _ _ true => true | _ => false) with
+        | some (.commit _ o _) => o | _ => 0
+      if st == c then none else some s!"resume-not-at-commit:m{m}:{st}!={c}"
+    | .sub m st =>
+      match past.find? (fun p => match p with | .assign m' _ => m' == m | _ => false) with
+      | some (.assign _ st') => if st == st' then none else some s!"subscribe-differs:m{m}"
+      | _ => some s!"subscribe-without-fetch:m{m}"
+    | _ => none) [] es 0
+
+/-- within an epoch a member is handed consecutive offsets from its start -/
+def monNoGap (es : List GTok) : Option String :=
+  gscan (fun past e =>
+    match e with
+    | .deliver m off =>
+      -- previous event of this member's epoch: a delivery of off-1, or the subscribe at off
+      match past.find? (fun p => match p with | .deliver m' _ => m' == m | .sub m' _ => m' == m | _ => false) with
+      | some (.deliver _ o') => if off == o' + 1 then none else some s!"gap:m{m}:{o'}->{off}"
+      | some (.sub _ st) => if off == st then none else some s!"gap-at-start:m{m}:{st}->{off}"
+      | _ => some s!"deliver-without-subscribe:m{m}"
+    | _ => none) [] es 0
+
+def opGTrace (evs : String) : String :=
+  let toks := evs.splitOn ";"
+  match toks.mapM parseGTok with
+  | some es =>
+    let acc := match gAccept {} es 0 with
+      | none => "ok"
+      | some (i, why) => s!"reject@{i}:{why}"
+    let ms := [monCovered es, monResume es, monNoGap es].filterMap id
+    let m := if ms.isEmpty then acc else acc ++ " mon=" ++ ",".intercalate ms
+    s!"model={m} holds={if ms.isEmpty then 1 else 0}"
+  | none => s!"bad-op {(toks.find? (fun t => (parseGTok t).isNone)).getD "?"}"
+
 def answer (line : String) : String :=
   match line.splitOn " => " with
   | [req, impl] =>
@@ -223,6 +329,10 @@ def answer (line : String) : String :=
     | ["merge", st, cs] => opMerge st cs impl
     | ["assign", start, topics, subs, resp] => opAssign start topics subs resp impl
     | ["ctrace", mode, evs] => opTrace mode evs
+    | ["gtrace", _tp, evs] => opGTrace evs
+    | ["d8reader"] =>
+      -- observation: after the forced late-unsubscribe schedule the next generation's fetchers are still running
+      s!"model=alive holds={if impl == "alive" then 1 else 0}"
     | _ => "bad-op"
   | _ => "bad-op"
 
